@@ -8,6 +8,7 @@ import (
 	"fmt"
 	"math/big"
 	"os"
+	"runtime"
 	"sort"
 	"syscall"
 
@@ -62,6 +63,9 @@ type Ctx struct {
 	cur      int64
 	sampleN  map[string]int
 	stop     bool
+
+	resumeFrom int64 // cases below this index were already run (restart after a recovered panic)
+	began      bool
 }
 
 const maxViolations = 12
@@ -101,7 +105,7 @@ func (c *Ctx) N(quick, thorough int64) int64 {
 
 // Mine reports whether case i belongs to this worker (and passes the replay filter).
 func (c *Ctx) Mine(i int64) bool {
-	if c.stop {
+	if c.stop || i < c.resumeFrom {
 		return false
 	}
 	if c.OnlyCase >= 0 {
@@ -119,6 +123,7 @@ func (c *Ctx) Mine(i int64) bool {
 // Begin marks the start of case i (for crash attribution) and returns its generator.
 func (c *Ctx) Begin(i int64) *gen.Rand {
 	c.cur = i
+	c.began = true
 	c.Res.Cases++
 	if c.progress != nil {
 		binary.LittleEndian.PutUint64(c.progress[0:8], uint64(i)+1)
@@ -237,10 +242,10 @@ func catch(f func()) (pv any) {
 
 // pointState describes what was observed of a library point.
 type pointState struct {
-	OK      bool
-	Why     string
-	Enc     []byte
-	Affine  ref.Pt
+	OK         bool
+	Why        string
+	Enc        []byte
+	Affine     ref.Pt
 	X, Y, Z, T *big.Int
 }
 
@@ -357,4 +362,34 @@ func (c *Ctx) checkGlobals(ref globalsSnapshot, when string) {
 			c.Fail("package-level state changed", map[string]any{"variable": k, "when": when})
 		}
 	}
+}
+
+// RunMonitor runs f, turning a panic that escapes a case (a library call made by a generator
+// or a monitor outside its own recover, e.g. a valid encoding rejected by a broken build)
+// into a violation attributed to that case, and resuming with the next case.
+func (c *Ctx) RunMonitor(f func(*Ctx)) {
+	for restarts := 0; restarts <= maxViolations; restarts++ {
+		c.began = false
+		pv := catchStack(func() { f(c) })
+		if pv == nil {
+			return
+		}
+		c.Fail("panic escaped from a case (library call panicked or rejected a valid construction)", map[string]any{"panic": pv})
+		if !c.began {
+			return // panicked before any case: restarting would loop
+		}
+		c.resumeFrom = c.cur + 1
+	}
+}
+
+func catchStack(f func()) (pv any) {
+	defer func() {
+		if r := recover(); r != nil {
+			buf := make([]byte, 2048)
+			n := runtime.Stack(buf, false)
+			pv = fmt.Sprint(r) + " | " + string(buf[:n])
+		}
+	}()
+	f()
+	return nil
 }
